@@ -253,12 +253,13 @@ def run(ck):
         name, consts = item
         consts = dict(consts, BUG_NegLen="FALSE", BUG_ShortReuse="FALSE")
         cfg = vlib.cfg_with(sw, "WsDecImpl_mc.cfg", consts, add=["\\* " + name])
-        r = vlib.tlc(sw, "WsDecImpl", cfg, workers=1 if ck.tier == "quick" else 2, timeout=1800,
-                     extra=["-coverage", "1"] if ck.tier == "thorough" else None)
+        big = name in ("raw-table-70000", "enc-table")     # the two 256-header-byte tables: no coverage statistics
+        r = vlib.tlc(sw, "WsDecImpl", cfg, workers=1 if ck.tier == "quick" else (4 if big else 2), timeout=2400,
+                     extra=["-coverage", "1"] if ck.tier == "thorough" and not big else None)
         if not r.ok:
             raise vlib.Inconclusive("WsDecImpl %s: %s\n%s" % (name, r.violated or r.error, r.tail()))
         ck.add_tlc("WsDecImpl transition cover " + name, r, consts)
-        if ck.tier == "thorough":
+        if ck.tier == "thorough" and not big:
             ck.cov.setdefault("coverage_zero_actions", {})[name] = _zero_actions(r)
         for line in r.lines('<<"MODELBAD"'):
             model_findings.add(line.split('"')[3])
